@@ -1,0 +1,64 @@
+//go:build verif
+
+// Contracts for utils.IsRelationAssignable (properties C02/C01), checked by govc.
+// Comments and import anchors only; compiled only with -tags verif.
+package utils
+
+import (
+	openfgav1 "github.com/openfga/api/proto/openfga/v1"
+)
+
+var _ *openfgav1.Userset_This
+
+// ---------------------------------------------------------------------------------------------------------------
+// IsRelationAssignable switches on the oneof WRAPPER type (*Userset_This, ...), the DSL printer on the getters
+// (GetThis() != nil, ...). The two views agree on trees whose direct-assignment wrappers carry a non-nil payload:
+
+// wrappersOK(u): in every node of u, a *Userset_This wrapper holds a non-nil DirectUserset (so GetThis() != nil).
+//@ spec wrappersOK(u *openfgav1.Userset) bool =
+//@      (is(u.GetUserset(), *openfgav1.Userset_This) ==> u.GetThis() != nil)
+//@   && (forall i int :: 0 <= i && i < len(u.GetUnion().GetChild()) ==> wrappersOK(u.GetUnion().GetChild()[i]))
+//@   && (forall i int :: 0 <= i && i < len(u.GetIntersection().GetChild()) ==> wrappersOK(u.GetIntersection().GetChild()[i]))
+//@   && (u.GetDifference() != nil ==> wrappersOK(u.GetDifference().GetBase()) && wrappersOK(u.GetDifference().GetSubtract()))
+
+// hasDirect(u): some node of u is a direct assignment as the printer recognises it (the existential reading of
+// "countThis(u) > 0"; the equivalence of the two needs induction over the tree, which the engine cannot do).
+//@ spec hasDirect(u *openfgav1.Userset) bool =
+//@      u.GetThis() != nil
+//@   || (exists i int :: 0 <= i && i < len(u.GetUnion().GetChild()) && hasDirect(u.GetUnion().GetChild()[i]))
+//@   || (exists i int :: 0 <= i && i < len(u.GetIntersection().GetChild()) && hasDirect(u.GetIntersection().GetChild()[i]))
+//@   || (u.GetDifference() != nil && (hasDirect(u.GetDifference().GetBase()) || hasDirect(u.GetDifference().GetSubtract())))
+
+// hasDirectWrapper(u): the same with the wrapper-type test the function itself uses.
+//@ spec hasDirectWrapper(u *openfgav1.Userset) bool =
+//@      is(u.GetUserset(), *openfgav1.Userset_This)
+//@   || (exists i int :: 0 <= i && i < len(u.GetUnion().GetChild()) && hasDirectWrapper(u.GetUnion().GetChild()[i]))
+//@   || (exists i int :: 0 <= i && i < len(u.GetIntersection().GetChild()) && hasDirectWrapper(u.GetIntersection().GetChild()[i]))
+//@   || (u.GetDifference() != nil && (hasDirectWrapper(u.GetDifference().GetBase()) || hasDirectWrapper(u.GetDifference().GetSubtract())))
+
+// oneofWF(u): A-PROTO-WF spelled out for a rewrite tree - an operator wrapper stored in the oneof interface is a
+// non-nil pointer (protobuf's own getters dereference it too; the engine assumes this inside the generated getters,
+// IsRelationAssignable dereferences the wrappers itself).
+//@ spec oneofWF(u *openfgav1.Userset) bool =
+//@      (is(u.GetUserset(), *openfgav1.Userset_Union) ==> dyn(u.GetUserset(), *openfgav1.Userset_Union) != nil)
+//@   && (is(u.GetUserset(), *openfgav1.Userset_Intersection) ==> dyn(u.GetUserset(), *openfgav1.Userset_Intersection) != nil)
+//@   && (is(u.GetUserset(), *openfgav1.Userset_Difference) ==> dyn(u.GetUserset(), *openfgav1.Userset_Difference) != nil)
+//@   && (forall i int :: 0 <= i && i < len(u.GetUnion().GetChild()) ==> oneofWF(u.GetUnion().GetChild()[i]))
+//@   && (forall i int :: 0 <= i && i < len(u.GetIntersection().GetChild()) ==> oneofWF(u.GetIntersection().GetChild()[i]))
+//@   && (u.GetDifference() != nil ==> oneofWF(u.GetDifference().GetBase()) && oneofWF(u.GetDifference().GetSubtract()))
+
+//@ func IsRelationAssignable
+//@   props C02 C01 C13
+//@   readonly
+//@   requires oneofWF(relDef)
+//@   ensures by_wrapper: result == hasDirectWrapper(relDef)
+//@   ensures exact_if_this:  wrappersOK(relDef) && result && is(relDef.GetUserset(), *openfgav1.Userset_This) ==> hasDirect(relDef)
+//@   ensures exact_if_union: wrappersOK(relDef) && result && relDef.GetUnion() != nil ==> hasDirect(relDef)
+//@   ensures exact_if_intersection: wrappersOK(relDef) && result && relDef.GetIntersection() != nil ==> hasDirect(relDef)
+//@   ensures exact_if_difference: wrappersOK(relDef) && result && relDef.GetDifference() != nil ==> hasDirect(relDef)
+//@   ensures true_only_for_these: result ==> is(relDef.GetUserset(), *openfgav1.Userset_This) || relDef.GetUnion() != nil || relDef.GetIntersection() != nil || relDef.GetDifference() != nil
+//@   ensures exact_only_if: wrappersOK(relDef) && hasDirect(relDef) ==> result
+//@   loop 1 invariant no_wrapper_yet: forall j int :: 0 <= j && j < $i ==> !hasDirectWrapper(relDef.GetUnion().GetChild()[j])
+//@   loop 1 invariant none_yet:       wrappersOK(relDef) ==> (forall j int :: 0 <= j && j < $i ==> !hasDirect(relDef.GetUnion().GetChild()[j]))
+//@   loop 2 invariant no_wrapper_yet: forall j int :: 0 <= j && j < $i ==> !hasDirectWrapper(relDef.GetIntersection().GetChild()[j])
+//@   loop 2 invariant none_yet:       wrappersOK(relDef) ==> (forall j int :: 0 <= j && j < $i ==> !hasDirect(relDef.GetIntersection().GetChild()[j]))
